@@ -29,6 +29,7 @@ RULE = (
     "-c configuration file of the documented shape, a near-miss shape or any JSON-expressible shape (always well-formed YAML). Non-trivial: a "
     "mutated program that still parses, or one refused by a post-parse check; distinct by sha1 of (text, options)"
 )
+RULE += ' Extreme numerals include six- and seven-digit ones ending in zeros; the command-line cases carry, one in two, a -c configuration file of the documented, a near-miss or an arbitrary JSON-expressible shape.'
 ASSUMPTIONS = [
     "a configuration file is well-formed YAML without duplicate keys (a YAML syntax error is the YAML reader's refusal, not one of the tool's: not asserted either way)",
     "documented refusals: parsimonious ParseError (incl. IncompleteParseError), coco.b09.compiler.ParseError, LineNumberTooLargeException, pydantic ValidationError",
